@@ -9,6 +9,7 @@
 //	1_000_000 ...  key-population runs through limits.Group (population_test.go)
 //	2_000_000 ...  SMTP endpoint with a limits block        (endpoint_test.go)
 //	3_000_000 ...  remote target, destination scope          (remote_test.go)
+//	3_500_000 ...  remote target, next-hop fault matrix      (remote_fault_test.go)
 //	4_000_000 ...  limiters.BucketSet with a small table     (bucket_test.go)
 package c11
 
